@@ -163,5 +163,11 @@ fn main() {
     run.ev.set("exhaustive", json!(true));
     run.ev.set("samples", json!([{"b": 4, "add_hashed": ["0x0", "0xffffffffffffffff", "0x10"], "expected_registers": {"0": 61, "15": 1}, "note": "hash 0 has no set bit among the remaining 60 bits -> rank 61; 0x10 also addresses register 0 with rank 60; all-ones addresses register 15 with rank 1"}]));
     run.ev.set("rule", json!("for every b in 4..=18 every sequence of add_hashed over the ~78-hash boundary universe up to the listed depth; registers compared with the specification; pairwise commutation and idempotence in the states of the last expanded level"));
+    // the Extend implementations deliver the same streams: extend(chunk1); extend(chunk2) == add loop
+    let (xp_cases, xp_viols) = checks::extendpaths::hll(if thorough { 5 } else { 4 });
+    for v in xp_viols {
+        run.violation(v);
+    }
+    run.ev.set("extend_path_cases", serde_json::json!(xp_cases));
     run.finish();
 }
